@@ -22,7 +22,7 @@ def dens(w, s):
     return (w + s - 1) // s
 
 
-def cases(tier, rng):
+def _cases(tier, rng):
     yield {'kind': 'mux', 'term': [['roll', 3, 1, [['to_list']]]], 'items': [0, 1, 2, 3]}
     yield {'kind': 'mux', 'term': [['roll', 3, 2, [['sum', None, True]]]], 'items': [1, 2, 3, 4, 5]}
     yield {'kind': 'mux', 'term': [['roll', 5, 2, [['to_list']]]], 'items': list(range(9))}
@@ -65,7 +65,7 @@ def cases(tier, rng):
             yield {'kind': 'mux', 'term': term, 'items': muxgen.gen_items(rng, n=rng.choice([0, 3, 8, 15, 30]))}
 
 
-def oracle(case, r):
+def _oracle(case, r):
     if 'harness_exc' in r:
         return 'real code raised: ' + r['harness_exc']
     if case['kind'] != 'mux' or r.get('raised') or muxprop.has_fatal(r['chunks']):
@@ -112,3 +112,14 @@ def violation_class(case, text):
         if k in text:
             return k
     return text[:60]
+
+
+def cases(tier, rng):
+    """every case of `_cases`, and for a fraction of the mux/plain ones the same case run as the SECOND subscription of
+    its pipeline object (after an earlier subscription that completed, failed or was disposed)"""
+    pr = rng.sub('resubscription')
+    return muxprop.with_preludes(_cases(tier, rng), pr)
+
+
+def oracle(case, r):
+    return muxprop.prelude_violation(case, r) or _oracle(case, r)
